@@ -85,6 +85,8 @@ func (c *Collection) recorderOpen() (log *commit.Log, err error) {
 		dst := (*unsafe.Pointer)(unsafe.Pointer(&c.record))
 		ptr := unsafe.Pointer(log)
 		if !atomic.CompareAndSwapPointer(dst, nil, ptr) {
+			log.Close()
+			os.Remove(log.Name())
 			return nil, fmt.Errorf("column: unable to snapshot, another one might be in progress")
 		}
 	}
